@@ -290,7 +290,14 @@ class _AuthMiddleware:
         exempt = (
             req.method == "OPTIONS"
             or req.path.startswith("/.well-known/")
-            or any(req.path.startswith(pfx) for pfx in self._exempt_prefixes)
+            or any(
+                # An entry ending in "/" exempts that subtree; any other entry
+                # exempts exactly that path.  A bare ``startswith`` would also
+                # exempt sibling routes sharing the text prefix (``/health`` vs
+                # an RPC method named ``healthz`` or ``health_report``).
+                req.path.startswith(pfx) if pfx.endswith("/") else req.path == pfx
+                for pfx in self._exempt_prefixes
+            )
         )
         if self._authenticate is None or exempt:
             tc = _TransportContext(auth=_ANONYMOUS, transport_metadata=transport_metadata)
